@@ -181,14 +181,17 @@ fn inject(h: &mut Host, b: &Bad) -> Option<(bool, bool)> {
             if h.cfg.bind_externals.is_none() {
                 return None;
             }
+            // the refused second binding is observably different from the first (returns
+            // nothing, opposite look-ahead safety): if it replaced the handler, later calls show it
+            let safe = h.cfg.bind_externals.unwrap_or(true);
             let r = h.story.bind_external_function(
                 &name,
                 Rc::new(RefCell::new(Ext {
                     log: h.log.clone(),
                     lines: h.lines.clone(),
-                    returns_value: true,
+                    returns_value: false,
                 })),
-                true,
+                !safe,
             );
             Some((r.is_err(), false))
         }
